@@ -17,6 +17,9 @@ CHECKS = {
  "C03": dict(engine=E2, category="exploration", technique="bounded-exhaustive generation of struct shapes; expected unfolding computed from the generator's own description", ref="DESIGN.md 4, 5/C03",
   text="hseq.New[T]() equals the generator's depth-first listing (names, tag keys, declared types, PureType, Anonymous, consecutive IDs) for every shape incl. pointer embedding and duplicate / case-variant names; RootOffs+Offset equals the real offset (pointer difference through selectors) for entries not behind a pointer; ForName/ForNameMaybe (first match, exact, absent keys), ForType/New1 (first match, absent and same-printed-name types panic), New[T](names...) for all permutations of <=3 keys, NewN with N distinct types in both orders, FMap and FMap1..9 positional.",
   note="Recursive embedded-pointer types are outside the alphabet (unfold does not terminate on them; the listing is undefined)."),
+ "C04": dict(engine=E2, category="exploration", technique="bounded-exhaustive generation of nested struct shapes and iso lists; differential byte-level comparison with plain assignments", ref="DESIGN.md 4, 5/C04",
+  text="Join at nesting 1..3 over generated nested structs (padding variations, focus plain or promoted from a value-embedded struct, by name and by type, both associations) under the C01 byte oracle; ForShape2/3 on every generated shape and ForShape2..9 on a homogeneous 9-field struct for all N-permutations of names (N<=4; 7 thorough) against component-wise assignment; BiMap/BiMapS/B/I/F laws on converted values, Getter never writes, Setter writes the converted value; map lens over all maps with keys in {a,b,c}; Morphism over all lists of length <=4 (5) over {nil, three isos, two nested morphisms}: Forward copies exactly the covered foci, Forward;Inverse restores them, nothing else changes in either structure, the caller's slice is untouched.",
+  note="Padding bytes inside the struct are not compared (Join copies a whole sub-struct and may rewrite them); guards around the struct are."),
  "C05": dict(engine=E1, category="model_checking", technique=T_E1, ref="DESIGN.md 3, 5/C05",
   text="Every interleaving (unbounded, state-cached) of producer, stage goroutine and one draining consumer per output, for every sequential stage, input 1..k (k<=3; 4 thorough), capacities 0..2, all 2^k predicate patterns and all Take n in 0..k+1: outputs equal the list function, each output and error channel closes, ForEach visits each element once in order, Take lets the producer complete at most n+cap sends, no deadlock and no goroutine left.",
   note=NOTE_E1 + "Elements are the distinct ints 1..k (the stages are parametric in the element type; predicate answers are enumerated instead)."),
